@@ -14,5 +14,6 @@ CONSTANTS
   Hyp_IdResetPerModel = FALSE
   Hyp_SharedFunctions = FALSE
   Hyp_RhsCachedByName = FALSE
+  Hyp_SteadyOneShot = FALSE
 POSTCONDITION AllConsumed
 CHECK_DEADLOCK FALSE
